@@ -625,24 +625,22 @@ def run(ctx):
 
 def signature(small, kind="contents"):
     """what a minimised failing case is about: the operation kinds it still contains"""
-    kinds = []
-    if any(w in o.split() for o in small for w in ("pushself", "insnself", "empself")):
+    def body(o):
+        w = o.split()
+        if w and w[0] in ("A", "B"):
+            return w[1:]
+        if len(w) > 2 and w[0] in ("m", "p"):
+            return w[2:]
+        return w
+    bodies = [body(o) for o in small]
+    if any(b and b[0] in ("pushself", "insnself", "empself") for b in bodies):
         return "self-aliasing-argument"     # v.push_back(v[j]) / v.insert(pos, n, v[j]) / v.emplace(pos, v[j])
-    for o in small if kind == "contents" else []:
-        w = o.split()
-        if len(w) >= 4 and w[1] == "insn" and w[3] == "0" or len(w) == 3 and w[1] == "insr":
-            return "insert-zero-count"      # insert(pos, 0, v) / insert(pos, first, first)
-        if len(w) >= 5 and w[0] == "m" and w[2] == "insn" and w[4] == "0" or len(w) == 4 and w[0] == "m" and w[2] == "insr":
-            return "insert-zero-count"
-    for o in small:
-        w = o.split()
-        k = w[1] if w[0] in ("A", "B") else (w[2] if w[0] == "m" and len(w) > 2 else w[0])
-        if k == "insn" and len(w) >= 4 and w[3] == "0":
-            k = "insert-zero-count"
-        if k == "insr" and len(w) == 3:
-            k = "insert-empty-range"
-        if k not in kinds and k not in ("new", "push", "snap"):
-            kinds.append(k)
+    if kind == "contents" and any((len(b) == 4 and b[0] == "insn" and b[2] == "0") or (len(b) == 2 and b[0] == "insr") for b in bodies):
+        return "insert-zero-count"          # insert(pos, 0, v) / insert(pos, first, first)
+    kinds = []
+    for b in bodies:
+        if b and b[0] not in kinds and b[0] not in ("new", "push", "snap", "reset"):
+            kinds.append(b[0])
     return "+".join(sorted(kinds)[:4]) or "push"
 
 
